@@ -338,6 +338,18 @@ pub fn check(out: &mut Out, st: &Step) {
                 if !pre_empty || a[1] != b[1] || nchars(st.commit_post) != 1 {
                     fail(out, st, &format!("Commit without conversion: expected one character on an empty pre-edit, got {}", hx(st.commit_post)));
                 }
+                // `DirectChar`: the key's own character, its full-width form, or a (full-width) space
+                if let Some(c) = st.commit_post.chars().next() {
+                    let own = c == ev.unicode || (ev.code == KeyCode::Space && c == ' ');
+                    let ok = if option(pre, 9) == 0 {
+                        own
+                    } else {
+                        own || c as u32 == ev.unicode as u32 + 0xFEE0 || c == '\u{3000}' || !c.is_ascii()
+                    };
+                    if !ok {
+                        fail(out, st, &format!("directly committed character {} is not the character of the key ({})", hx(st.commit_post), ev.unicode as u32));
+                    }
+                }
                 STATS.with(|s| {
                     let mut s = s.borrow_mut();
                     s.single_char_commits += 1;
